@@ -253,6 +253,23 @@ func init() {
 		s.PendingTimeoutJob = i64(30)
 		s.PodActions = []string{"run", "succeed", "sched"}
 		add(s)
+		// One task stuck terminating beyond the force-delete timeout while its sibling lives.
+		for _, strat := range []string{"AnySuccessful", "AllSuccessful"} {
+			fd := jobBase("count2-" + strat[:3] + "-att1-pending30-deadkubelet-force60")
+			fd.Parallelism, fd.Strategy, fd.MaxAttempts, fd.MaxFail = "count2", strat, 1, 1
+			fd.PendingTimeoutJob, fd.ForceDeleteCfg, fd.KubeletDead = i64(30), i64(60), true
+			fd.PodActions = []string{"run", "succeed", "sched"} // "sched": bound to a node, so deletion waits for the (dead) kubelet
+			fd.Horizon = 300
+			if thorough {
+				fd.Name = "count2-" + strat[:3] + "-att2-pending30-deadkubelet-force60"
+				fd.MaxAttempts = 2
+				fd.PodActions = []string{"run", "succeed", "sched"}
+				fd.Horizon = 2000
+			} else if strat == "AllSuccessful" {
+				continue
+			}
+			add(fd)
+		}
 		if thorough {
 			s = jobBase("count2-All-att2-pendingtimeout")
 			s.Parallelism, s.Strategy, s.MaxAttempts, s.MaxFail = "count2", "AllSuccessful", 2, 1
@@ -375,6 +392,12 @@ func init() {
 		s = jobBase("none-pending-30-deadkubelet-force60")
 		s.PendingTimeoutJob, s.ForceDeleteCfg, s.KubeletDead = i64(30), i64(60), true
 		s.PodActions = []string{"run", "succeed", "sched"}
+		add(s)
+		s = jobBase("count2-att1-pending-30-deadkubelet-force60")
+		s.Parallelism, s.MaxAttempts, s.MaxFail = "count2", 1, 1
+		s.PendingTimeoutJob, s.ForceDeleteCfg, s.KubeletDead = i64(30), i64(60), true
+		s.PodActions = []string{"run", "succeed", "sched"}
+		s.Horizon = 300
 		add(s)
 		// Kill of a Job that is already "finished" by an admission error while tasks of other indexes live.
 		fk := jobBase("foreign-noowner-count2-kill")
